@@ -88,6 +88,32 @@ def generate(api):
     api.grab(t, r"zti\.contains_ts\(ts as i64\)", rel, "Eq uses contains_ts")
     emit(f"-- {rel}: literal -> u64 clamp, u64 fallback and overlap tests checked (shape only)")
 
+    # ---------------------------------------------------------------- temporal index builder / ZoneTemporalIndex
+    rel = "src/engine/core/time/temporal_builder.rs"
+    t = api.src(rel)
+    emit(f"-- {rel}: stride (and fence count) handed to ZoneTemporalIndex::from_timestamps")
+    calls = re.findall(r"ZoneTemporalIndex::from_timestamps\(([^;]*?)\);", t, re.S)
+    if len(calls) != 2:
+        raise api.Missing(f"{rel}: expected exactly two from_timestamps calls, found {len(calls)}")
+    m = api.grab(t, r"ZoneTemporalIndex::from_timestamps\(ts_vals_ts\.clone\(\), ([0-9_]+), ([0-9_]+)\);", rel,
+                 "literal stride for the fixed timestamp field")
+    emit(f"def ztiStrideTimestamp : Nat := {api.num(m.group(1))}")
+    m = api.grab(t, r"ZoneTemporalIndex::from_timestamps\(ts_vals\.clone\(\), ([0-9_]+), ([0-9_]+)\);", rel,
+                 "literal stride for payload time fields")
+    emit(f"def ztiStrideField : Nat := {api.num(m.group(1))}")
+    if len(re.findall(r"if min_ts >= 0 && max_ts >= 0 \{", t)) != 2:
+        raise api.Missing(f"{rel}: calendar registration rule `min_ts >= 0 && max_ts >= 0` changed")
+    rel = "src/engine/core/time/zone_temporal_index.rs"
+    t = api.src(rel)
+    api.grab(t, r"ts\.sort_unstable\(\);\s*ts\.dedup\(\);\s*let min_ts = \*ts\.first\(\)\.unwrap_or\(&0\);\s*let max_ts = \*ts\.last\(\)\.unwrap_or\(&0\);",
+             rel, "min/max of the sorted values")
+    api.grab(t, r"\.map\(\|&t\| \(\(t - min_ts\) / stride\)\.max\(0\) as u64\)", rel, "key = (t - min) / stride")
+    api.grab(t, r"if ts < self\.min_ts \|\| ts > self\.max_ts \{\s*return false;\s*\}\s*let off = ts - self\.min_ts;\s*"
+                r"if self\.stride > 1 && \(off % self\.stride\) != 0 \{\s*return false;\s*\}\s*"
+                r"let key = \(off / self\.stride\)\.max\(0\) as u64;", rel, "contains_ts")
+    emit(f"-- {rel}: from_timestamps / contains_ts shape checked")
+    emit("")
+
     # ---------------------------------------------------------------- filter group builder / condition builder
     rel = "src/engine/core/filter/filter_group_builder.rs"
     t = api.src(rel)
